@@ -34,8 +34,11 @@ def _run_jobs(jobs, wd, driver):
     return outs
 
 
+FAMILY_FILES = ['harness/tagfam.py', 'harness/tagrun.py', 'harness/runfix.py', 'harness/variants.py', 'harness/vlex.py', 'spec/CodeTags.tla', 'spec/CodeTagsOps.tla', 'spec/CodeTagsTrace.tla', 'spec/CodeTagsTrace.cfg', 'spec/MC_CodeTags.cfg', 'spec/Mutant_CodeTags_EqAll.cfg']
+
+
 def collect(tier):
-    th = common.tree_hash()
+    th = common.tree_hash(FAMILY_FILES)
     key = "%s/tagfam_%s_%d" % (th, tier, common.seed())
     with common.Lock("tagfam_" + tier):
         cd = common.cache_dir(key)
